@@ -210,6 +210,25 @@ func Generate(rng *rand.Rand, i int, thorough bool) *p2prig.Scenario {
 			s.Announce[k].Nodes = nil
 		}
 	}
+	// a single honest peer and a store that is forked in an awkward way: a stale fork reaching above the peer's tip, or a
+	// lighter fork ending exactly at the peer's height
+	if s.Engine == "legacy" && i%16 == 9 {
+		s.HonestLen = 40 + rng.Intn(300)
+		cp := 1 + rng.Intn(s.HonestLen-20)
+		s.CheckpointHeights = []int32{int32(cp)}
+		s.DisableCheckpoints = rng.Intn(4) == 0
+		if rng.Intn(2) == 0 {
+			s.InitialStore, s.PrefixLen = "tall-stale-fork", cp+3+rng.Intn(s.HonestLen-cp-6)
+		} else {
+			s.InitialStore, s.PrefixLen = "lighter-fork", s.HonestLen-3
+		}
+		s.Nodes = []p2prig.NodeSpec{{Kind: "honest"}}
+		s.DropNode0AfterSync, s.WaitReconnect, s.SlowConvergeWaitSec = false, false, 0
+		for k := range s.Announce {
+			s.Announce[k].Nodes = nil
+		}
+		return s
+	}
 	// the honest network reorganises after the initial sync: the peer announces (by inv, or by headers once asked to) the
 	// tip of a branch that replaces its last few blocks. Its getheaders answers are capped well below the fork height, so
 	// only a request that locates the fork point makes progress.
@@ -391,7 +410,7 @@ func Record(r *ev.Run, s *p2prig.Scenario, res *p2prig.Result, crash string, onl
 }
 
 func body(r *ev.Run) {
-	r.Rule("scenarios = seeded draws over engine {legacy full server, experimental Peer} x checkpoints {enabled, disabled (legacy)} x checkpoint list {one, several, at the honest tip, none (experimental)} x initial store {genesis, honest prefix, stale fork present, on a lighter fork} x 1..4 scripted peers {honest, laggards, lighter forkers above the last checkpoint} x reply cap {2000; 1/7/500 for linear catch-up} x chain length {short, around the cap, beyond it} x announcement rounds {inv, headers, conformant; one or two peers announce} x faults {honest peer drops the connection at message i (re-dial awaited); stalling peer (thorough)}; every scenario ends with an honest announcement round. One scenario = one child process running the real engine against loopback scripted nodes; verdict at logical quiescence (ping/pong per connection + sync-manager round trip until two rounds change nothing). distinct = distinct structural classes; non-trivial = all (each has >=1 sync + >=1 announcement).")
+	r.Rule("with a single honest peer and nothing scripted to go wrong the store must hold that peer's chain at quiescence BEFORE anything is announced (announcements would deliver the missing blocks by another path); initial stores incl. a stale fork reaching above the peer's tip and a lighter fork ending exactly at the peer's height. scenarios = seeded draws over engine {legacy full server, experimental Peer} x checkpoints {enabled, disabled (legacy)} x checkpoint list {one, several, at the honest tip, none (experimental)} x initial store {genesis, honest prefix, stale fork present, on a lighter fork} x 1..4 scripted peers {honest, laggards, lighter forkers above the last checkpoint} x reply cap {2000; 1/7/500 for linear catch-up} x chain length {short, around the cap, beyond it} x announcement rounds {inv, headers, conformant; one or two peers announce} x faults {honest peer drops the connection at message i (re-dial awaited); stalling peer (thorough)}; every scenario ends with an honest announcement round. One scenario = one child process running the real engine against loopback scripted nodes; verdict at logical quiescence (ping/pong per connection + sync-manager round trip until two rounds change nothing). distinct = distinct structural classes; non-trivial = all (each has >=1 sync + >=1 announcement).")
 	r.Assume("honest blocks carry strictly more work than competing ones and the honest chain extends at least as far past a fork point as the competing branch (a competing fork is adoptable from one reply)", "laggards' tips and fork points lie above the last checkpoint; tips are within the 24 h 'current' window", "experimental engine: one outbound peer, announcements by headers/conformant only", "timer-driven behaviour longer than the scenario waits for (3-minute sync-peer rotation) is out of reach")
 	r.Require("converged", 10)
 	n := r.Pick(128, 1500)
@@ -403,7 +422,7 @@ func body(r *ev.Run) {
 			res, crash := p2prig.RunScenarioChild(r.Scratch, s, wd)
 			Record(r, s, res, crash, func(sig string) bool {
 				// containment oracles (forbidden header, checkpoint mismatch/advance) are C07's; C06 decides convergence
-				for _, p := range []string{"not-converged|", "ichain|", "panic", "reader-5xx|"} {
+				for _, p := range []string{"not-converged|", "not-converged-before-any-announcement|", "ichain|", "panic", "reader-5xx|"} {
 					if strings.HasPrefix(sig, p) {
 						return true
 					}
